@@ -581,8 +581,9 @@ Proof. vm_compute. repeat split. Qed.
 (* ---- the first sentence of the property in closed form, with SHA-256 itself (common/Sha256.v:
    executable FIPS 180-4, checked on the NIST vectors and differentially on every run) ---- *)
 Theorem C18_derive_sha256 :
-  forall enc, derive sha256 enc = if len enc <=? 42 then mkPid 0 enc else mkPid 18 (sha256 enc).
-Proof. exact derive_sha256_spec. Qed.
+  forall enc, derive sha256 enc = (if len enc <=? 42 then mkPid 0 enc else mkPid 18 (sha256 enc)) /\
+              derive_fast enc = derive sha256 enc.
+Proof. intros enc. split; [exact (derive_sha256_spec enc) | exact (derive_fast_eq enc)]. Qed.
 Print Assumptions C18_derive_sha256.
 
 (* every derived id is a valid id (32-byte digest, bytes) and goes round through bytes, text and
